@@ -61,6 +61,27 @@ Theorem allocation_table_empty_when_requests_consumed : forall g size cs,
   after_release (snd (run current g init cs)) = [].
 Proof. exact consumed_empty. Qed.
 
+(* Exact accounting, after EVERY call of every history: the table holds exactly the client
+   slots the server had no business freeing (judged by the client from what it sent and
+   read: the slot of a refused pointer request, the inputs behind the point the lockstep
+   loop got to) plus the pointers whose release the client deferred; after the final
+   release exactly the former. *)
+Theorem allocation_table_exact_after_every_call : forall g size cs,
+  g_size g = Some size ->
+  tables_ok false 0 0 cs (map fst (fst (run current g init cs)))
+            (length (after_release (snd (run current g init cs)))) = true.
+Proof. exact tables_exact. Qed.
+
+(* The core of it: in an exchange the loop frees the slot of every pointer input it
+   resolves - one per answer written, plus the one whose turn ended the stream - whatever
+   that turn does afterwards: answer, return an error, panic, emit nothing, emit twice,
+   Finish. [processed] counts those inputs from the frames the client reads. *)
+Theorem input_slot_freed_however_the_turn_ends : forall g en items turns st R,
+  Permutation (l_own st) (sptrs items ++ R) ->
+  let r := lockstep true g true en turns items st in
+  length (l_own (snd (fst r))) = (length (sptrs (skipn (processed (fst (fst r))) items)) + length R)%nat.
+Proof. exact lockstep_exch_len. Qed.
+
 (* A pointer request on a connection that never advertised a segment - after any history
    [pre] without a valid advertisement, for unary, producer, exchange and unknown methods,
    whatever input stream follows - is answered with exactly one IOError stream, and the
@@ -97,7 +118,8 @@ Proof. exact refused_and_continue. Qed.
    pointer to nowhere) has answered the inputs before it as the plain session does and
    ends with one IOError; every other call is transparent; what is still allocated after
    the client's release is a client slot, and nothing when the client sent no pointer or
-   only request pointers that the connection could resolve. *)
+   only request pointers that the connection could resolve; and the table has exactly the
+   expected number of entries after every call and after the final release. *)
 Theorem spec_holds_on_model : forall i, spec_ok i (model i) = true.
 Proof. exact model_meets_spec. Qed.
 
